@@ -66,6 +66,18 @@ def build_jobs(ctx, cases):
             seed = ctx.seed * 1000 + k
             jobs.append({"case": c, "opts": cfg, "threads": nt,
                          "sched": ["--random", str(nr), "--pct", str(npct), "--depth", str(2 + k % 2), "--seed", str(seed)]})
+    # the pool is RAISED above its initial size and lowered again by the library (degree < n_threads): the grow and the shrink
+    # branch of mps_thread_pool_set_concurrency_limit together.  --pool0 K = size of the pool of the new context, -j J > K.
+    # J = K + 2*degree and J > K + 2*degree are the two regimes in which a miscounted grow loop leaves a pool without threads
+    # (deadlock of the first parallel step) / walks past the thread list.
+    lows = sorted([c for c in cases if c["cls"] not in ("secular", "chebyshev") and 2 <= c["degree"] <= 5], key=lambda c: c["degree"])[:2]
+    for c in lows:
+        d = c["degree"]
+        for cfg in (CONFIGS[0], CONFIGS[1]):
+            for (k0, jj) in ((2, 2 + 2 * d), (1, 1 + 2 * d + 3), (2, 3)):
+                k += 1
+                jobs.append({"case": c, "opts": cfg, "threads": jj, "pool0": k0,
+                             "sched": ["--random", str(ctx.pick(2, 10)), "--pct", str(ctx.pick(1, 6)), "--depth", "3", "--seed", str(ctx.seed * 1000 + k)]})
     if not ctx.quick():
         small = [c for c in cases if c["degree"] <= 4 and c["cls"] not in ("secular", "chebyshev")][:3]
         for c in small:
@@ -99,6 +111,7 @@ def run_job(j, idx, harness, syms, worker, env, scratch, timeout):
     pol = os.path.join(scratch, "j%d.pol" % idx); outp = os.path.join(scratch, "j%d.out" % idx)
     with open(pol, "w") as f: f.write(j["case"]["text"])
     cmd = [harness, pol] + j["opts"] + ["-j", str(j["threads"]), "--syms", syms] + j["sched"] + ["--timeout", str(j.get("run_timeout", 20))]
+    if j.get("pool0"): cmd += ["--pool0", str(j["pool0"])]
     t0 = time.time()
     with open(outp, "w") as fo:
         import subprocess
@@ -165,13 +178,21 @@ def run(ctx):
             raise vf.InfraError("building bin/worker failed: %s %s" % (o[-1500:], e[-1500:]))
     worker = ctx.model_bin("worker")
 
+    mstats = {}
+    if ctx.replay and json.load(open(ctx.replay)).get("kind") == "mcluster":
+        mcluster_phase(ctx, mstats)
+        ctx.prove()
+        return ctx.finish("proof", {"evaluations": 1, "distinct_nontrivial": 1, "rule": "replay of one mps_mcluster schedule", "samples": [], "histogram": dict(mstats.get("mcluster", {})),
+                                    "trusted_base": ["replay"]}, [])
+    n_mc = mcluster_phase(ctx, mstats) or 0
+    ctx.log("mps_mcluster under the scheduler: %s" % dict(mstats.get("mcluster", {})))
     if ctx.replay:
         rp = json.load(open(ctx.replay))
         case = {"name": rp["case"], "cls": rp.get("class", "replay"), "text": rp["text"], "degree": 0}
         sched = rp["sched"]
         if rp.get("schedule") and rp["schedule"] != "-":
             sf = os.path.join(ctx.scratch, "replay.sched"); open(sf, "w").write(rp["schedule"]); sched = ["--replay-file", sf]
-        jobs = [{"case": case, "opts": rp["opts"], "threads": rp["threads"], "sched": sched}]
+        jobs = [{"case": case, "opts": rp["opts"], "threads": rp["threads"], "sched": sched, "pool0": rp.get("pool0")}]
     else:
         cases = build_cases(ctx)
         jobs = build_jobs(ctx, cases)
@@ -188,12 +209,13 @@ def run(ctx):
     def rep_of(j, r, extra=None):
         d = {"case": j["case"]["name"], "class": j["case"]["cls"], "text": j["case"]["text"], "opts": j["opts"], "threads": j["threads"],
              "sched": (["--random", "1", "--seed", "0"] if False else j["sched"]), "mode": r["kv"].get("mode"), "seed": r["kv"].get("seed"),
-             "schedule": r["kv"].get("sched", "-"),
-             "how": "harness/c05_solve FILE <opts> -j <threads> --syms <nm -S -n> --replay-file <schedule>   (or ./check C05 --replay <this file>)"}
+             "schedule": r["kv"].get("sched", "-"), "pool0": j.get("pool0"),
+             "how": "harness/c05_solve FILE <opts> -j <threads> [--pool0 <pool0>] --syms <nm -S -n> --replay-file <schedule>   (or ./check C05 --replay <this file>)"}
         if extra: d.update(extra)
         return d
     for j in jobs:
-        c = j["case"]; cfgs = " ".join(j["opts"]); tag = "%s:%s:j=%d" % (c["name"], cfgs.replace(" ", ""), j["threads"])
+        c = j["case"]; cfgs = " ".join(j["opts"]); tag = "%s:%s:j=%d%s" % (c["name"], cfgs.replace(" ", ""), j["threads"], (":pool0=%d" % j["pool0"]) if j.get("pool0") else "")
+        if j.get("pool0"): stats["runs:pool-raised-from-%d-to-%d(degree %d)" % (j["pool0"], j["threads"], c["degree"])] += len(j["runs"])
         if j["rc"] != 0:
             raise vf.InfraError("c05_solve failed rc=%s on %s %s: %s" % (j["rc"], c["name"], cfgs, j["err"][-1500:]))
         if j["werr"] or not j["wout"]:
@@ -242,7 +264,8 @@ def run(ctx):
                     ctx.violation(SIG_XUNLOCK, "mps_mcluster locks block_mutexes[j] in the calling thread and _mps_mcluster_worker unlocks it from a pool thread "
                                   "(a default pthread mutex used as a binary semaphore: undefined by POSIX); seen on %s %s with %d threads" % (c["name"], cfgs, j["threads"]),
                                   rep_of(j, r))
-            if (st == 5 and "exit-98" in what) or (st == 6 and "runtime error:" in j["err"] and "AddressSanitizer" not in j["err"]):
+            memory_ub = re.search(r"runtime error: [^\n]*(null pointer|misaligned address|out of bounds|invalid vptr|not a valid value)", j["err"] or "")
+            if not memory_ub and ((st == 5 and "exit-98" in what) or (st == 6 and "runtime error:" in j["err"] and "AddressSanitizer" not in j["err"])):
                 # (status 6: the process sometimes hangs in exit() after the UBSan report and is killed by the run's alarm)
                 # UBSan (arithmetic undefined behaviour, e.g. the exponent difference in rdpe_add): schedule independent,
                 # judged by C12 / C03, not a predicate of this property; the run has no result to judge
@@ -262,7 +285,7 @@ def run(ctx):
                     continue
             if st != 0:
                 kind = STATUS_NAME.get(st, "status%d" % st)
-                asan = (st == 5 and "exit-97" in what) or "AddressSanitizer" in j["err"]
+                asan = (st == 5 and "exit-97" in what) or "AddressSanitizer" in j["err"] or bool(memory_ub)
                 if asan: kind = "sanitizer"
                 stats["VIOLATION:" + kind] += 1
                 m = re.search(r"(ERROR: AddressSanitizer: [^\n]*|runtime error: [^\n]*)", j["err"])
@@ -444,7 +467,8 @@ def run(ctx):
     ctx.proof_violation_if_broken(search)
 
     cov = {
-        "evaluations": evaluations + tot["runs"],
+        "evaluations": evaluations + tot["runs"] + n_mc,
+        "mcluster_block_jobs_under_scheduler": dict(mstats.get("mcluster", {})),
         "distinct_nontrivial": len(nontrivial),
         "rule": "one evaluation = one predicate instance on a real execution: one complete solve under one schedule (shim verdict + model replay) "
                 "or one (run, returned disc) oracle query / count identity / coverage query; distinct non-trivial = (input, options, threads, schedule, root) "
@@ -490,8 +514,83 @@ def run(ctx):
                                      "block_mutexes (mps_mcluster) behave as binary semaphores (glibc); see known finding " + SIG_XUNLOCK])
 
 
+# ------------------------------------------------------------------ mps_mcluster block jobs under the scheduler
+def mcluster_phase(ctx, stats):
+    """The multiprecision cluster analysis splits the roots into blocks of 128 and runs one pool task per block
+    (_mps_mcluster_worker); the tasks splice their sub-lists into the shared cluster under cluster->lock.  A case with
+    200 discs in ONE old cluster (so that two block tasks work on the same cluster) is run through harness/c07_cluster.c
+    (the C07 harness, shim build: mps_mcluster on a crafted state) under random / PCT schedules with several pool sizes.
+    Predicate (the property's own: no root without an owner): the run ends (no deadlock), every root 0..n-1 is in exactly
+    one cluster of the new clusterisation, the list lengths agree with cluster->n (`bad=0`), and the partition is the set of
+    connected components of the implementation's own touch matrix, whatever the schedule."""
+    hs = ctx.compile_harness(["vf_sched.c", "c07_cluster.c"], "c05_mcluster_shim", mode="shimsan")
+    n, G = 200, 10
+    def case_line(th):
+        toks = ["mc", "m", str(n), str(n), str(th), "64", ",".join(str(k) for k in range(n))]
+        for i in range(n): toks += ["%d 0" % (100 * (i % G)), "0 0", "1 0", "1 0"]
+        return " ".join(toks) + "\n"
+    if ctx.replay:
+        rp = json.load(open(ctx.replay))
+        if rp.get("kind") != "mcluster": return
+        jobs = [(rp["threads"], ["--replay", rp["schedule"]])]
+    else:
+        nr, npct = ctx.pick((30, 20), (300, 200))
+        jobs = [(th, ["--random", str(nr), "--pct", str(npct), "--depth", "3", "--seed", str(ctx.seed * 100 + th)]) for th in ctx.pick((2, 4, 8), (2, 3, 4, 8, 16))]
+    def one(job):
+        th, args = job
+        return vf.sh([hs] + args, input=case_line(th), timeout=900, env=ctx.san_env())
+    with cf.ThreadPoolExecutor(max_workers=4) as ex: outs = list(ex.map(one, jobs))
+    st = stats.setdefault("mcluster", collections.Counter())
+    for (th, args), (rc, o, e) in zip(jobs, outs):
+        lines = o.splitlines(); T = None; cur = None; expect = None
+        for ln in lines:
+            if ln.startswith("mc T="):
+                T = ln.split(" ")[1][2:]
+                par = list(range(n))
+                def find(a):
+                    while par[a] != a: par[a] = par[par[a]]; a = par[a]
+                    return a
+                for a in range(n):
+                    for b in range(a + 1, n):
+                        if T[a * n + b] == "1" or T[b * n + a] == "1": par[find(a)] = find(b)
+                comp = collections.defaultdict(list)
+                for a in range(n): comp[find(a)].append(a)
+                expect = sorted(sorted(v) for v in comp.values())
+            elif ln.startswith("R new="):
+                f = ln.split(" "); cur = (f[1][4:], f[2][4:])
+            elif ln.startswith("# run "):
+                f = ln.split(" "); status = int(f[4]); what = f[12]; sched = f[14] if len(f) > 14 else "-"
+                st["schedules:threads=%d" % th] += 1
+                rep = {"kind": "mcluster", "threads": th, "schedule": sched, "n": n, "case": "200 discs, centres 100*(i mod 10), radius 1, one old cluster",
+                       "how": "harness/c07_cluster.c (shim build)  --replay <schedule>  < case line   (or ./check C05 --replay <this file>)"}
+                if status != 0:
+                    st["VIOLATION:" + STATUS_NAME.get(status, str(status))] += 1
+                    ctx.violation("mcluster:%s:n%d/t%d" % (STATUS_NAME.get(status, str(status)), n, th),
+                                  "mps_mcluster under the scheduler shim: %s (%s) with %d pool threads" % (STATUS_NAME.get(status, str(status)), what, th), rep)
+                elif cur is None or expect is None:
+                    ctx.violation("mcluster:no-result:n%d/t%d" % (n, th), "run finished without printing a clusterisation", rep)
+                else:
+                    new = [[int(k) for k in c.split(",")] if c else [] for c in cur[0].split(";")] if cur[0] not in ("", "-") else []
+                    flat = sorted(k for c in new for k in c)
+                    if flat != list(range(n)):
+                        missing = sorted(set(range(n)) - set(flat))
+                        st["VIOLATION:root-in-no-cluster"] += 1
+                        ctx.violation("mcluster:root-in-no-cluster:n%d/t%d" % (n, th),
+                                      "after mps_mcluster %d of %d roots are in no cluster (first: %s) / %d listed twice: a root without an owner; %d pool threads"
+                                      % (len(missing), n, missing[:6], len(flat) - len(set(flat)), th), rep)
+                    elif cur[1] != "0" or sorted(sorted(c) for c in new if c) != expect:
+                        st["VIOLATION:schedule-dependent-clusters"] += 1
+                        ctx.violation("mcluster:components:n%d/t%d" % (n, th), "the clusterisation is not the set of components of the touch matrix (bad=%s, %d clusters, expected %d); %d pool threads"
+                                      % (cur[1], len(new), len(expect), th), rep)
+                    else:
+                        st["ok"] += 1
+                cur = None
+        if T is None: raise vf.InfraError("c07_cluster (shim) gave no header: rc=%s %s" % (rc, (e or "")[-500:]))
+    return sum(v for k_, v in st.items() if k_.startswith("schedules:"))
+
+
 def rep_of_final(j, r, extra=None):
     d = {"case": j["case"]["name"], "class": j["case"]["cls"], "text": j["case"]["text"], "opts": j["opts"], "threads": j["threads"],
-         "sched": j["sched"], "mode": r["kv"].get("mode"), "seed": r["kv"].get("seed"), "schedule": r["kv"].get("sched", "-")}
+         "sched": j["sched"], "mode": r["kv"].get("mode"), "seed": r["kv"].get("seed"), "schedule": r["kv"].get("sched", "-"), "pool0": j.get("pool0")}
     if extra: d.update(extra)
     return d
